@@ -38,6 +38,28 @@ type target struct {
 	legit func(f [][]byte) bool
 }
 
+// spareClasses: cap(dst)-len(dst) relative to the number of bytes Open/Seal must append.
+var spareClasses = []string{"spare=0", "spare=needed-1", "spare=needed", "spare=needed+1", "spare=needed+15", "spare=needed+16", "spare=needed+17", "spare=large"}
+
+// spareFor maps a class index to a spare capacity for a call that appends need bytes.
+func spareFor(cls, need int) (int, string) {
+	cls = ((cls % len(spareClasses)) + len(spareClasses)) % len(spareClasses)
+	v := []int{0, need - 1, need, need + 1, need + 15, need + 16, need + 17, need + 300}[cls]
+	if v < 0 {
+		v = 0
+	}
+	return v, spareClasses[cls]
+}
+
+// sentinelAt is the stale byte dst's spare capacity is pre-filled with at
+// offset i: non-zero and different from the plaintext byte at that offset.
+func sentinelAt(pt []byte, i int) byte {
+	if i < len(pt) && pt[i] == c02Sentinel {
+		return 0x5A
+	}
+	return c02Sentinel
+}
+
 func clampedEq(a, b []byte) bool {
 	x, y := clone(a), clone(b)
 	for _, k := range [][]byte{x, y} {
@@ -57,7 +79,7 @@ func topBitEq(a, b []byte) bool {
 
 // chachaTarget builds the target for ChaCha20-Poly1305 / XChaCha20-Poly1305
 // on implementation path p. dstSpare selects the dst capacity class.
-func chachaTarget(p path, key, nonce, pt, ad []byte, dstPrefix []byte, spareEnough bool) target {
+func chachaTarget(p path, key, nonce, pt, ad []byte, dstPrefix []byte, spareBase int) target {
 	sealed := refaead.Seal(key, nonce, pt, ad)
 	tg := target{
 		scheme: fmt.Sprintf("chacha20poly1305/%d", len(nonce)),
@@ -69,6 +91,7 @@ func chachaTarget(p path, key, nonce, pt, ad []byte, dstPrefix []byte, spareEnou
 	}
 	// one AEAD object per key, reused across all (mostly failing) Open calls of the case
 	aeads := map[string]cipher.AEAD{}
+	opens := 0
 	tg.open = func(f [][]byte) (bool, []byte, error) {
 		restore := p.use()
 		defer restore()
@@ -83,15 +106,15 @@ func chachaTarget(p path, key, nonce, pt, ad []byte, dstPrefix []byte, spareEnou
 		if need < 0 {
 			need = 0
 		}
-		spare := 0
-		if spareEnough {
-			spare = need + 8
-		}
+		// cap(dst)-len(dst) walks through every threshold of the append logic,
+		// a different class on every call (starting at the drawn/enumerated base)
+		spare, _ := spareFor(spareBase+opens, need)
+		opens++
 		dst, chk := placed(3, len(dstPrefix), len(dstPrefix)+spare)
 		copy(dst, dstPrefix)
 		region := dst[len(dstPrefix) : len(dstPrefix)+spare]
 		for i := range region {
-			region[i] = c02Sentinel
+			region[i] = sentinelAt(pt, i)
 		}
 		var out []byte
 		var err error
@@ -113,9 +136,12 @@ func chachaTarget(p path, key, nonce, pt, ad []byte, dstPrefix []byte, spareEnou
 		if !bytes.Equal(dst, dstPrefix) {
 			return false, nil, fmt.Errorf("failed Open modified dst[:len(dst)]")
 		}
-		for i := 0; i < need && i < len(region); i++ {
-			if region[i] != 0 && region[i] != c02Sentinel {
-				return false, nil, fmt.Errorf("failed Open left data in dst's spare capacity: byte %d of the would-be plaintext region is %#02x (neither zeroed nor untouched); region %s", i, region[i], ev.Hex(region[:need]))
+		// the WHOLE spare capacity dst[len(dst):cap(dst)] is inspected: zero or the untouched
+		// sentinel (chosen to differ from the plaintext byte at that position), never anything else
+		for i := range region {
+			if region[i] != 0 && region[i] != sentinelAt(pt, i) {
+				isPt := i < len(pt) && region[i] == pt[i]
+				return false, nil, fmt.Errorf("failed Open left data in dst[len(dst):cap(dst)] (cap-len=%d, needed %d): byte %d is %#02x, neither zeroed nor untouched (plaintext byte there: %v); spare capacity now %s", spare, need, i, region[i], isPt, ev.Hex(region))
 			}
 		}
 		// the same rejected input opened IN PLACE (dst = buf[:k], ciphertext = buf[k:]): it must be
@@ -453,7 +479,7 @@ func TestC02(t *testing.T) {
 				an = min(an, 40)
 			}
 			ad := gen.RandBytes(rt, "adb", an)
-			spare := rapid.IntRange(0, 3).Draw(rt, "spare") > 0
+			spare := rapid.IntRange(0, len(spareClasses)-1).Draw(rt, "spareClass")
 			for _, p := range paths {
 				tgs = append(tgs, chachaTarget(p, key, nonce, pt, ad, prefix, spare))
 			}
@@ -469,6 +495,9 @@ func TestC02(t *testing.T) {
 			if err := c02Baseline(&tgs[ti], pt); err != nil {
 				rt.Fatalf("VF-VIOLATION: property=C02 %v", err)
 			}
+		}
+		if scheme < 6 {
+			c.Class("dst capacity rotates over " + fmt.Sprint(len(spareClasses)) + " classes per call (0, needed-1, needed, needed+1, +15, +16, +17, large)")
 		}
 		tg0 := &tgs[0]
 		nmod := rapid.IntRange(4, 10).Draw(rt, "nmod")
@@ -574,7 +603,7 @@ func TestC02(t *testing.T) {
 			an := adLens[(n+nonceLen/12)%3]
 			key, nonce, pt, ad := pat(seed, 32), pat(seed+1, nonceLen), pat(seed+2, n), pat(seed+3, an)
 			for _, p := range paths {
-				tg := chachaTarget(p, key, nonce, pt, ad, pat(seed+4, n%4), true)
+				tg := chachaTarget(p, key, nonce, pt, ad, pat(seed+4, n%4), n)
 				if err := c02Baseline(&tg, pt); err != nil {
 					c.Violation(err.Error(), "")
 					t.Fatalf("VF-VIOLATION: property=C02 %v", err)
